@@ -385,3 +385,9 @@ def r4(ctx):
     f = aj.methods.get("indication")
     calls = [norm(x.func) for x in calls_in(f)] if f else []
     ctx.check("AnnexJCodec.indication:encodes", calls.count("self.request") == 1 and "BVLPDU" in calls and "PDU" in calls, where(aj.module, f or aj.node), "an outgoing message must be encoded into a BVLPDU, then a PDU, and sent once")
+
+
+@rule("C09.R5", "a truncated frame is refused: every multi-octet read of the decoders goes through the bounded, consuming PDUData reads", floor=8, engines="E1 facts + E5 (shared with C02.R2)")
+def r5_reads(ctx):
+    from .c02 import pdudata_reads
+    pdudata_reads(ctx)
